@@ -494,8 +494,9 @@ static void run_c07(long cases) {
             wait_for([&] { std::lock_guard<std::mutex> g(g_m); auto it = g_peers.find(a.localPort); if (it == g_peers.end() || it->second.fd < 0) return false; sfd5 = it->second.fd; return true; }, 5 * lf);
             wait_for([&] { lv::Interpose& I = lv::ip(); std::lock_guard<std::mutex> g(I.m); auto it = I.fds.find(sfd5); return it != I.fds.end() && it->second.eagain > 0; }, 3 * lf);
             lv::msleep(300);
-            std::string buf; lv::HttpMsg m; double deadline = lv::now() + 20 * lf + big / 2e6;
-            for (;;) { m = lv::parse_http(buf, 0, true); if (m.complete || !m.error.empty() || lv::now() > deadline) break; bool eof = false; if (!a.read_some(buf, 200, 1 << 30, &eof)) break; }
+            std::string buf; lv::HttpMsg m; double lastProgress = lv::now(), hardEnd = lv::now() + 300; size_t lastSize = 0;
+            for (;;) { m = lv::parse_http(buf, 0, true); if (m.complete || !m.error.empty()) break; bool eof = false; if (!a.read_some(buf, 200, 1 << 30, &eof)) break;
+                if (buf.size() != lastSize) { lastSize = buf.size(); lastProgress = lv::now(); } else if (lv::now() - lastProgress > 10 * lf || lv::now() > hardEnd) break; }
             if (!m.complete) key = "c07:blocked-peer-not-completed-after-release";
             else if (m.body != tagged(77, big)) key = "c07:blocked-peer-body-corrupt";
             wait_for([&] { return g_stream_handler_done.load() > 0; }, 10 * lf); g_stream_handler_done = 0;
@@ -559,8 +560,11 @@ static void run_c07(long cases) {
         // release: A reads everything
         if (key.empty()) {
             std::string buf = prebuf; lv::HttpMsg m;
-            double deadline = lv::now() + 20 * lf + big / 2e6;
-            for (;;) { m = lv::parse_http(buf, 0, true); if (m.complete || !m.error.empty() || lv::now() > deadline) break; bool eof = false; if (!a.read_some(buf, 200, 1 << 30, &eof)) break; }
+            // judged on progress, not on a total duration: the peer gives up only when nothing at all has arrived for 10 s x load (or after 5 minutes);
+            // on a busy machine 24 MiB through a 2 KiB receive buffer take their time (a thorough run under a load of 60 overran a fixed bound)
+            double lastProgress = lv::now(), hardEnd = lv::now() + 300; size_t lastSize = buf.size();
+            for (;;) { m = lv::parse_http(buf, 0, true); if (m.complete || !m.error.empty()) break; bool eof = false; if (!a.read_some(buf, 200, 1 << 30, &eof)) break;
+                if (buf.size() != lastSize) { lastSize = buf.size(); lastProgress = lv::now(); } else if (lv::now() - lastProgress > 10 * lf || lv::now() > hardEnd) break; }
             if (!m.complete) key = "c07:blocked-peer-not-completed-after-release";
             else if (m.body != tagged(77, big)) key = "c07:blocked-peer-body-corrupt";
             else if (variant == 2 || variant == 4 || variant == 6) {
